@@ -98,6 +98,7 @@ type Case struct {
 	Profile  string  `json:"profile,omitempty"`  // generator label only
 	Repeat   int     `json:"repeat,omitempty"`   // executions per case (schedule diversity)
 	BigCount int     `json:"bigcount,omitempty"` // >0: Jobs is a template, replicated to BigCount independent jobs
+	Procs    int     `json:"procs,omitempty"`    // >0: GOMAXPROCS to run the case under (default-limit cases)
 }
 
 // Limit returns the concurrency limit the case must be held to.
@@ -515,10 +516,16 @@ func makeBarrierCase(t *rapid.T, c *Case) {
 	c.WaitCtx = WBack
 	c.ConcEnq = 0
 	c.Gate = 0
-	if c.N == 0 || c.N > 12 {
+	width := c.N
+	if c.N == 0 {
+		// default limit: max(GOMAXPROCS, 4) - pin GOMAXPROCS so that the case replays
+		c.Procs = []int{1, 2, 3, 4, 6}[uniform(t, "procs", 5)]
+		width = c.Limit(c.Procs)
+	} else if c.N > 12 {
 		c.N = rapid.IntRange(1, 12).Draw(t, "barriern")
+		width = c.N
 	}
-	npre := rapid.IntRange(0, 2*c.N+2).Draw(t, "npre")
+	npre := rapid.IntRange(0, 2*width+2).Draw(t, "npre")
 	jobs := make([]Job, 0, npre+c.N)
 	for i := 0; i < npre; i++ {
 		jb := Job{}
@@ -530,7 +537,7 @@ func makeBarrierCase(t *rapid.T, c *Case) {
 		}
 		jobs = append(jobs, jb)
 	}
-	for i := 0; i < c.N; i++ {
+	for i := 0; i < width; i++ {
 		jb := Job{}
 		if npre > 0 && i == 0 {
 			// start the barrier phase only after the prefix is over
@@ -539,7 +546,7 @@ func makeBarrierCase(t *rapid.T, c *Case) {
 		jobs = append(jobs, jb)
 	}
 	c.Jobs = jobs
-	c.Barrier = c.N
+	c.Barrier = width
 	c.Shape = "barrier"
 }
 
